@@ -45,6 +45,7 @@ func (c APICall) String() string {
 // Scenario is a closed system: configuration + environment behaviour + API scripts + bounds.
 type Scenario struct {
 	ID         string
+	OnState    func(w *World, name, status string) // called (outside the harness lock) whenever the runner publishes a state
 	YAML       string
 	Files      map[string]string
 	Procs      map[string]*ProcScript // by configured name, or name#num
@@ -56,6 +57,7 @@ type Scenario struct {
 	ToRun      []string
 	NoDeps     bool
 	Main       string
+	MainArgs   []string // extra arguments of the main process (process-compose run a -- args)
 	TuiOn      bool
 	K          int           // deviation bound
 	FreeSwitch bool          // switching away from a blocked thread costs nothing
@@ -404,7 +406,7 @@ func (w *World) body(prefix []int) {
 	}
 	w.Project = project
 	po := &app.ProjectOpts{}
-	po.WithProject(project).WithProcessesToRun(sc.ToRun).WithNoDeps(sc.NoDeps).WithMainProcess(sc.Main).
+	po.WithProject(project).WithProcessesToRun(sc.ToRun).WithNoDeps(sc.NoDeps).WithMainProcess(sc.Main).WithMainProcessArgs(sc.MainArgs).
 		WithIsTuiOn(sc.TuiOn).WithOrderedShutDown(sc.Ordered)
 	runner, err := app.NewProjectRunner(po)
 	if err != nil {
@@ -419,6 +421,9 @@ func (w *World) body(prefix []int) {
 		w.lastStat[name] = status
 		w.addEvent(Event{Kind: "state", Proc: name, Data: status, Code: st.ExitCode})
 		w.mu.Unlock()
+		if sc.OnState != nil {
+			sc.OnState(w, name, status)
+		}
 	}
 	s := vrt.NewSched()
 	if len(sc.MapSites) > 0 {
